@@ -27,6 +27,7 @@ class Leaves(object):
 FULL = Leaves(INT_LEAVES_FULL, BOOL_LEAVES_FULL)
 RED = Leaves(INT_LEAVES_RED, BOOL_LEAVES_RED)
 MIN = Leaves(INT_LEAVES_MIN, BOOL_LEAVES_MIN)
+TINY = Leaves(["i0"], ["b0"])
 
 # constructor table: (name, result kind, operand kinds, format)
 # fixed-arity constructors
